@@ -84,6 +84,12 @@ def cases(tier, seed):
     for nm in ("V.1.2", "A.B", "END.", "A-B", "X,Y", "#1", "0A0"):
         for kind in ("dsk", "cas"):
             yield {"kind": kind, "hist": ["nm:" + nm, SAVE, 0, SAVE, 1, SAVE, 4, SAVE]}
+    # files whose ASCII flag byte is neither $00 nor $FF (a tape may carry any byte there; outside what C06/C07 quantify over, so the
+    # container may refuse them - but whatever it does, the files stored before must stay listed, and an accepted file must read back)
+    for flag in (0x01, 0x10, 0x80, 0xFE):
+        for ft in (0, 1, 3):
+            for kind in ("dsk", "cas"):
+                yield {"kind": kind, "hist": [0, SAVE, "fl:{}:{:02X}".format(ft, flag), SAVE, 1, SAVE]}
     # ASCII files have no 16-bit length field on a disk: they may be larger than 65,535 bytes, up to the whole disk
     for kind in ("dsk", "cas"):
         for h in ([0, SAVE, "asc70000", SAVE, 1, SAVE], ["asc65536", SAVE, 0, SAVE], ["asc65535", SAVE, 0, SAVE], ["asc156671", SAVE, SAVE],
@@ -121,6 +127,9 @@ def file_of(case, sym):
         return c07.fspec("ML", k * 2304 - 10 - 100, "G{}".format(k), pat="ramp7")
     if isinstance(sym, str) and sym.startswith("nm:"):
         return c07.fspec("ML", 300, sym[3:], "BIN", pat="ramp7")
+    if isinstance(sym, str) and sym.startswith("fl:"):
+        _, ft, flag = sym.split(":")
+        return C.spec("ODD" + flag, "DAT", int(ft), int(flag, 16), 0, 0, 300, "ramp7")
     if isinstance(sym, str) and sym.startswith("kb:"):
         _, kindname, n = sym.split(":")
         return c07.fspec(kindname, int(n), "KB" + n, "DAT", pat="ramp7")
